@@ -11,6 +11,7 @@ pub mod c07;
 pub mod c08;
 pub mod c09;
 pub mod c10;
+pub mod c11;
 pub mod c12;
 pub mod c13;
 pub mod c15;
@@ -30,6 +31,7 @@ pub fn lanes_of(id: &str) -> Vec<(&'static str, LaneFn)> {
         "C08" => vec![("generated", c08::generated), ("exhaustive", c08::exhaustive), ("mutated", c08::mutated), ("rejection", c08::rejection_classes)],
         "C09" => vec![("exhaustive_short", c09::exhaustive_short), ("exhaustive_meta", c09::exhaustive_meta), ("random", c09::random)],
         "C10" => vec![("streams", c10::streams), ("search_collect", c10::search_collect)],
+        "C11" => vec![("decoder", c11::decoder), ("driver", c11::driver), ("stack", c11::stack)],
         "C12" => vec![("timeouts", c12::timeouts)],
         "C13" => vec![("histories", c13::histories), ("long_histories", c13::long_histories)],
         "C15" => vec![("random", c15::random), ("patterns", c15::patterns)],
@@ -67,6 +69,7 @@ pub fn replay(ctx: &Ctx, id: &str, v: &Value) -> Value {
         "C08" => c08::replay(ctx, v),
         "C09" => c09::replay(ctx, v),
         "C10" => c10::replay(ctx, v),
+        "C11" => c11::replay(ctx, v),
         "C12" => c12::replay(ctx, v),
         "C13" => c13::replay(ctx, v),
         "C15" => c15::replay(ctx, v),
@@ -77,6 +80,13 @@ pub fn replay(ctx: &Ctx, id: &str, v: &Value) -> Value {
     rep.to_json("replay")
 }
 
-pub fn child_main(_args: &[String]) -> i32 {
-    2
+pub fn child_main(args: &[String]) -> i32 {
+    match args.first().map(|s| s.as_str()) {
+        Some("c11-stack") => {
+            let depth: usize = args.get(1).and_then(|s| s.parse().ok()).unwrap_or(10);
+            let shape = args.get(2).map(|s| s.as_str()).unwrap_or("seq");
+            c11::stack_child(depth, shape)
+        }
+        _ => 2,
+    }
 }
